@@ -435,3 +435,10 @@ package interpreter
 //@   pure
 //@   opt params state data
 //@   requires (spec.iso_state state CA0)
+
+// ---- C05 (continued): booleans, error conditions of numeric pops, DIV/MOD/MUL ----
+//@ func interpreter.asBool
+//@   bytes token
+//@   pure
+//@   ensures[C05.asbool] (= result (spec.truthy (bytes t)))
+//@   loop 0 invariant (forall ((j Int)) (=> (and (<= 0 j) (<= j rangeindex)) (= (bat (bytes t) j) 0)))
